@@ -174,6 +174,18 @@ Inductive laction := Reject | Partial.
 Inductive iaction := ADeny | ADrop | ARedirect.
 Record intr := mkintr { in_act : iaction; in_status : N }.
 
+(* what the ctl actions of the rules that matched in one phase set (None = untouched):
+   ctl:requestBodyAccess, ctl:requestBodyLimit (honoured up to phase 1), ctl:responseBodyAccess,
+   ctl:forceResponseBodyVariable, ctl:responseBodyLimit (honoured up to phase 3) *)
+Record ctl := mkctl {
+  k_qacc : option bool;
+  k_qlim : option N;
+  k_racc : option bool;
+  k_force : option bool;
+  k_rlim : option N
+}.
+Definition ctl_none : ctl := mkctl None None None None None.
+
 Record config := mkcfg {
   c_engine : engine;
   c_req_access : bool;
@@ -186,8 +198,20 @@ Record config := mkcfg {
   c_ph1 : option intr;                          (* phase 1 on connection, URI, request headers *)
   c_ph2 : bytes -> option intr;                 (* phase 2 on the buffered request body *)
   c_ph3 : N -> headers -> option intr;          (* phase 3 on the status and response headers *)
-  c_ph4 : N -> headers -> bytes -> option intr  (* phase 4 on the buffered response body *)
+  c_ph4 : N -> headers -> bytes -> option intr; (* phase 4 on the buffered response body *)
+  c_ctl1 : ctl;                                 (* ctl actions of the phase-1 rules that matched *)
+  c_ctl2 : bytes -> ctl;                        (* ... of phase 2, on the buffered request body *)
+  c_ctl3 : N -> headers -> ctl                  (* ... of phase 3, on the status and response headers *)
 }.
+
+(* Transaction.RequestBodyAccess / RequestBodyLimit when the body is read (after phase 1) *)
+Definition eff_qacc (cfg : config) : bool :=
+  match k_qacc (c_ctl1 cfg) with Some b => b | None => c_req_access cfg end.
+Definition eff_qlim (cfg : config) : N :=
+  match k_qlim (c_ctl1 cfg) with Some n => n | None => c_req_limit cfg end.
+(* what the request-body phase gets to see *)
+Definition req_buffered (cfg : config) (body : bytes) : bytes :=
+  if eff_qacc cfg then takeN (eff_qlim cfg) body else [].
 
 (* Transaction.Interrupt: only engine On records an interruption *)
 Definition rule_intr (cfg : config) (o : option intr) : option intr :=
@@ -214,11 +238,11 @@ Definition mw_request (cfg : config) (body : bytes) : req_outcome :=
   match rule_intr cfg (c_ph1 cfg) with
   | Some it => RBlocked it
   | None =>
-    if c_req_access cfg then
+    if eff_qacc cfg then
       (* ReadRequestBodyFrom: io.CopyN(buffer, req.Body, limit) *)
-      let buffered := takeN (c_req_limit cfg) body in
-      let rest := dropN (c_req_limit cfg) body in
-      if blen buffered =? c_req_limit cfg then
+      let buffered := takeN (eff_qlim cfg) body in
+      let rest := dropN (eff_qlim cfg) body in
+      if blen buffered =? eff_qlim cfg then
         match eff_action cfg (c_req_action cfg) with
         | Reject => RBlocked (mkintr ADeny 413)
         | Partial =>
@@ -246,21 +270,38 @@ Record txs := mktx {
   t_rbuf : bytes;      (* responseBodyBuffer *)
   t_ct : bytes;        (* variables.responseContentType *)
   t_code : N;          (* status given to ProcessResponseHeaders *)
-  t_hdrs : headers     (* response headers given to the transaction *)
+  t_hdrs : headers;    (* response headers given to the transaction *)
+  t_racc : bool;       (* tx.ResponseBodyAccess *)
+  t_force : bool;      (* tx.ForceResponseBodyVariable *)
+  t_rlim : N           (* tx.ResponseBodyLimit *)
 }.
 
-Definition tx_after_request : txs := mktx None 2 [] [] 0 [].
+Definition tx_apply_ctl (k : ctl) (t : txs) : txs :=
+  mktx (t_intr t) (t_last t) (t_rbuf t) (t_ct t) (t_code t) (t_hdrs t)
+       (match k_racc k with Some b => b | None => t_racc t end)
+       (match k_force k with Some b => b | None => t_force t end)
+       (match k_rlim k with Some n => n | None => t_rlim t end).
 
-Definition processable (cfg : config) (t : txs) : bool := existsb (bytes_eqb (t_ct t)) (c_mimes cfg).
-Definition buffering (cfg : config) (t : txs) : bool := c_resp_access cfg && processable cfg t.
+(* the transaction when the handler starts: static settings, then the ctl actions of phases 1 and 2 *)
+Definition tx_after_request (cfg : config) (body : bytes) : txs :=
+  tx_apply_ctl (c_ctl2 cfg (req_buffered cfg body))
+    (tx_apply_ctl (c_ctl1 cfg) (mktx None 2 [] [] 0 [] (c_resp_access cfg) false (c_resp_limit cfg))).
+
+(* IsResponseBodyProcessable, IsResponseBodyAccessible: asked again at every use *)
+Definition processable (cfg : config) (t : txs) : bool :=
+  t_force t || existsb (bytes_eqb (t_ct t)) (c_mimes cfg).
+Definition buffering (cfg : config) (t : txs) : bool := t_racc t && processable cfg t.
 
 (* the AddResponseHeader loop of rwInterceptor.WriteHeader followed by ProcessResponseHeaders *)
 Definition tx_resp_headers (cfg : config) (code : N) (live : headers) (t : txs) : txs :=
   let ct := match ct_of live with Some x => x | None => t_ct t end in
-  if 3 <=? t_last t then mktx (t_intr t) (t_last t) (t_rbuf t) ct (t_code t) live
+  if 3 <=? t_last t then mktx (t_intr t) (t_last t) (t_rbuf t) ct (t_code t) live (t_racc t) (t_force t) (t_rlim t)
   else match t_intr t with
-       | Some _ => mktx (t_intr t) (t_last t) (t_rbuf t) ct (t_code t) live
-       | None => mktx (rule_intr cfg (c_ph3 cfg code live)) 3 (t_rbuf t) ct code live
+       | Some _ => mktx (t_intr t) (t_last t) (t_rbuf t) ct (t_code t) live (t_racc t) (t_force t) (t_rlim t)
+       | None =>
+         (* the phase-3 rules run here: their ctl actions decide whether the body will be buffered *)
+         tx_apply_ctl (c_ctl3 cfg code live)
+           (mktx (rule_intr cfg (c_ph3 cfg code live)) 3 (t_rbuf t) ct code live (t_racc t) (t_force t) (t_rlim t))
        end.
 
 (* ProcessResponseBody *)
@@ -272,16 +313,17 @@ Definition tx_resp_body (cfg : config) (t : txs) : txs :=
     else
       let data := if buffering cfg t then t_rbuf t else [] in
       mktx (rule_intr cfg (c_ph4 cfg (t_code t) (t_hdrs t) data)) 4 (t_rbuf t) (t_ct t) (t_code t) (t_hdrs t)
+           (t_racc t) (t_force t) (t_rlim t)
   end.
 
 Definition tx_set_rbuf (b : bytes) (t : txs) : txs :=
-  mktx (t_intr t) (t_last t) b (t_ct t) (t_code t) (t_hdrs t).
+  mktx (t_intr t) (t_last t) b (t_ct t) (t_code t) (t_hdrs t) (t_racc t) (t_force t) (t_rlim t).
 Definition tx_set_intr (i : option intr) (t : txs) : txs :=
-  mktx i (t_last t) (t_rbuf t) (t_ct t) (t_code t) (t_hdrs t).
+  mktx i (t_last t) (t_rbuf t) (t_ct t) (t_code t) (t_hdrs t) (t_racc t) (t_force t) (t_rlim t).
 
 (* WriteResponseBody (response body access is on): new state, returned interruption, bytes taken *)
 Definition tx_write_resp (cfg : config) (b : bytes) (t : txs) : txs * option intr * N :=
-  let lim := c_resp_limit cfg in
+  let lim := t_rlim t in
   let cur := blen (t_rbuf t) in
   let act := eff_action cfg (c_resp_action cfg) in
   if lim =? cur then
@@ -314,7 +356,7 @@ Definition ic_init : ics := mkic 200 false false false false.
 
 Record mws := mkmw { m_tx : txs; m_ic : ics; m_ds : ds }.
 
-Definition mw_init : mws := mkmw tx_after_request ic_init ds_init.
+Definition mw_start (t0 : txs) : mws := mkmw t0 ic_init ds_init.
 
 Definition ic_flush_header (sk : bool) (m : mws) : mws :=
   let i := m_ic m in
@@ -464,8 +506,8 @@ Definition run_hst (ops : list hop) (view : bytes) : hst :=
 
 Definition run_direct (sk : bool) (ops : list hop) : ds := fold_left (ds_step sk) ops ds_init.
 
-Definition run_mw_handler (cfg : config) (sk : bool) (ops : list hop) : mws :=
-  ic_finish cfg sk (fold_left (mw_step cfg sk) ops mw_init).
+Definition run_mw_handler (cfg : config) (sk : bool) (t0 : txs) (ops : list hop) : mws :=
+  ic_finish cfg sk (fold_left (mw_step cfg sk) ops (mw_start t0)).
 
 (* ---------------------------------------------------------------- WrapHandler *)
 Record result := mkres {
@@ -482,7 +524,7 @@ Definition wrap_handler (cfg : config) (sk : bool) (body : bytes) (ops : list ho
     match mw_request cfg body with
     | RBlocked it => mkres false [] (Some it) (ds_write_header sk (status_of it 200) ds_init)
     | RPass view =>
-      let m := run_mw_handler cfg sk ops in
+      let m := run_mw_handler cfg sk (tx_after_request cfg body) ops in
       mkres true (h_read (run_hst ops view)) (t_intr (m_tx m)) (m_ds m)
     end
   end.
